@@ -16,7 +16,8 @@ with what the statement allows:
                     each authorised mutation adds one approved entry
   parent_untouched  an operation on one genome never changes another genome of the lineage;
                     replicate leaves the parent's export/hash/statistics identical
-  child_diff        a fresh child has the parent's genes and differs only where authorised
+  child_diff        a fresh child has the parent's genes and differs only where authorised; with
+                    inherit_expression=True it also reports the parent's expression level for every gene
   express           express(ctx) = non-silenced, non-dormant genes, conditional ones only if named, judged
                     against the expression levels the genome itself reports just before the call; a
                     successful silence/activate/set_expression must show in those levels
@@ -60,7 +61,9 @@ ASSUMPTIONS = [
     "ancestor is not judged by the rollback clause",
     "with mutations enabled and mutation_rate > 0 the values of a fresh child are not predicted (every change is "
     "authorised); only its gene names are checked",
-    "expression levels of a fresh child are taken from observation (inheritance of expression is not in the statement)",
+    "with inherit_expression=True a fresh child must report the parent's expression level for every gene (else it "
+    "differs from its parent without an authorised mutation); with inherit_expression=False the child's initial "
+    "levels are taken from observation",
     "'silenced' means the level the genome reports through export(); that mutate/rollback/add_gene leave the "
     "expression level of the same genome alone is not demanded (levels are not 'stored values'); changes to "
     "ANOTHER genome's levels are a parent_untouched violation",
@@ -68,7 +71,8 @@ ASSUMPTIONS = [
 EXPECT_PROBES = ("refused_logged", "approved_by_callback", "approver_raised", "approver_returned_none",
                  "rollback_restored", "rollback_refused", "child_mutated_at_birth", "op_on_child",
                  "random_mutation_path", "express_conditional_named", "express_silenced_hidden",
-                 "readd_refused", "readd_overwrite", "grandchild", "child_op_parent_checked")
+                 "readd_refused", "readd_overwrite", "grandchild", "child_op_parent_checked",
+                 "expression_inherited_checked", "inherited_level_differs_from_gene_default")
 
 NAMES = ["a", "b", "c", "d"]
 TYPES = ["structural", "regulatory", "housekeeping", "conditional", "dormant"]
@@ -545,6 +549,17 @@ def _run(plan, k, fake):
                 cm.inherited = set(m.inherited) | ({e[0] for e in m.approved} if m.approved is not None else set(b["genes"]))
                 if set(c["genes"]) != set(b["genes"]):
                     k.violation("child_diff", "gene_set_differs", site, f"{sorted(b['genes'])} vs {sorted(c['genes'])}")
+                # with inherit_expression=True the fresh child carries the parent's expression levels (otherwise it
+                # would express a different configuration although no mutation was authorised)
+                if op[3]:
+                    k.probe("expression_inherited_checked")
+                    for nm in sorted(b["expr"]):
+                        if nm in c["genes"] and c["expr"].get(nm) != b["expr"][nm]:
+                            dflt = "at_gene_default" if c["expr"].get(nm) != 2 or b["expr"][nm] == 2 else "reset_to_normal"
+                            k.violation("child_diff", "expression_level_not_inherited", "replicate:inherit_expression",
+                                        f"{nm}: parent level {b['expr'][nm]} child level {c['expr'].get(nm)} ({dflt})")
+                        elif b["expr"][nm] != _default_level(cfg, lineage, nm, b):
+                            k.probe("inherited_level_differs_from_gene_default")
                 muts = [(nm, canon(v)) for nm, v in op[2] if nm in b["genes"]]
                 if muts:
                     attempts += 1
@@ -610,6 +625,14 @@ def _run(plan, k, fake):
 
     if attempts >= 1 and (second_look >= 1 or len(lineage) > 1):
         k.nontrivial = True
+
+
+def _default_level(cfg, lineage, nm, b):
+    """default_expression the root was built with for this gene name (None if the gene was added later)."""
+    for g in cfg["genes"]:
+        if g[0] == nm:
+            return g[3]
+    return None
 
 
 def _is_ancestor(lineage, anc, idx):
